@@ -115,6 +115,65 @@ def conversation(sfl: int, cfl: int, ti: int, n_c2s: int, n_s2c: int, idle: int,
     return verdict(untraced(_interop, sfl, cfl, ti, n_c2s, n_s2c, idle, who, connect_send))
 
 
+def _backpressure(sfl, cfl, ti, n_during, who):
+    """WebSocket in use (directly or after the upgrade). The client stops reading for a while (network back-pressure: the
+    server's write of the next frame does not complete), the server application keeps sending and then one side
+    disconnects; the client resumes reading. Everything sent while connected arrives once, in order."""
+    k = Kernel()
+    srv = (ThreadedSut if sfl == 0 else AsyncSut)(k=k, async_handlers=False, ping_interval=PI, ping_timeout=PT)
+    sp = ServerPeer(srv)
+    cl = (ThreadedClientSut if cfl == 0 else AsyncClientSut)(k, sp)
+    st = dict(server=srv.flavour, client=cl.flavour, transports=repr(TRANSPORTS[ti]), backpressure=True)
+    try:
+        h = cl.call('connect', 'http://h.example', transports=TRANSPORTS[ti])
+        k.settle()
+        if h.exc is not None or cl.state() != 'connected' or cl.c.transport() != 'websocket':
+            return fail(PROP, 'CONNECT', 'connect: %r state %s transport %s' % (h.exc, cl.state(), cl.c.transport()), **st)
+        sid = srv.sids()[0]
+        peer = sp.links[-1][1].peer
+        srv.app_send(sid, _payload('s', 0))
+        k.settle()
+        peer.paused = True
+        for i in range(1, 1 + n_during):
+            srv.app_send(sid, _payload('s', i))
+            k.settle()
+        d = None
+        if who == 1:
+            d = srv.app_disconnect(sid)
+            k.settle()
+        peer.paused = False
+        k.settle()
+        k.run(until=k.now + 1)
+        if who == 0:
+            d = cl.call('disconnect')
+            k.settle()
+        k.run(until=k.now + PI + PT + 2)
+        got_c = [a for kk, a in cl.events if kk == 'message']
+        want_c = [_payload('s', i) for i in range(1 + n_during)]
+        ordered = cfl == 1
+        if (got_c != want_c) if ordered else (sorted(map(repr, got_c)) != sorted(map(repr, want_c))):
+            return fail(PROP, 'SERVER-TO-CLIENT', 'server sent %r while connected (the client was not reading for a while), client '
+                        'received %r' % (want_c[:8], got_c[:8]), **st)
+        dc = [e for e in cl.events if e[0] == 'disconnect']
+        ds = [a for kk, s, a in srv.events if kk == 'disconnect']
+        if len(dc) != 1 or len(ds) != 1:
+            return fail(PROP, 'DISCONNECT-BOTH-SIDES', '%s disconnects: client saw %r, server saw %r' % (
+                'client' if who == 0 else 'server', dc, ds), **st)
+        return ''
+    finally:
+        cl.close()
+        srv.close()
+
+
+@cond(quick=dict(timeout=120), thorough=dict(timeout=300))
+def backpressure(sfl: int, cfl: int, ti: int, n_during: int, who: int) -> str:
+    """
+    pre: 0 <= sfl <= 1 and 0 <= cfl <= 1 and 1 <= ti <= 2 and 0 <= n_during <= 5 and 0 <= who <= 1
+    post: _ == ''
+    """
+    return verdict(untraced(_backpressure, sfl, cfl, ti, n_during, who))
+
+
 from vf.validate.stubs import ALL as VALIDATE  # noqa: E402  (stub-vs-real conformance, run before the obligations)
 
 
